@@ -61,7 +61,8 @@ MkCfg(r, sh) ==
   IN [kfs |-> [i \in 1..n |-> Kf(i)], de |-> Pick(<<1, 1, 14, 3>>, d[22]),
       tm |-> Pick(<< [cyc |-> 4, del |-> 0, rep |-> -1, rev |-> FALSE], [cyc |-> 8, del |-> 2, rep |-> 1, rev |-> TRUE],
                      [cyc |-> 2, del |-> 1, rep |-> -2, rev |-> FALSE], [cyc |-> 6, del |-> 0, rep |-> 2, rev |-> FALSE],
-                     [cyc |-> 4, del |-> 1, rep |-> 0, rev |-> TRUE] >>, d[23])]
+                     [cyc |-> 4, del |-> 1, rep |-> 0, rev |-> TRUE],
+                     [cyc |-> 4, del |-> 1, rep |-> -3, rev |-> FALSE] >>, d[23])]      \* (-3: Repeat::Times(u32::MAX))
 
 Init == \E i \in 1..NShapes :
           LET r == ((((Seed * 7919) + (i * 104729)) % 65521) + 1) IN
